@@ -4,17 +4,17 @@ CHECK = {
     "level": "exploration",
     "engines": ["space"],
     "technique": "bounded-exhaustive enumeration of (CIDR list, source address, transport, entry path, view declaration order) on the real ipset / accesslist / views / default chain against a naive per-prefix containment reference",
-    "level_text": "Every ordered list (with repetition) of <=3/<=4 CIDR strings from a 50-entry universe (IPv4 prefixes on one /28 and its neighbours with lengths 0,1,27-32 incl. host bits set; IPv6 prefixes straddling the 64-bit word boundary with lengths 0,1,63,64,65,127,128; duplicates, nested, adjacent; malformed strings) is compiled by the real ipset.New and queried for every one of 88 probe addresses (whole /28, range boundaries +-1, ::ffff:a.b.c.d forms, v6 word-boundary addresses, invalid slices) through ContainsIP and Contains; the real accesslist handler, the real views handler and the real default middleware chain (defaults.RegisterUpTo(resolver) + Registry.Build + production autoWire, stub in the resolver position) are driven for every list x source x transport x entry path (decoded and wire-born) and judged on replies written and downstream invocations.",
+    "level_text": "Every ordered list (with repetition) of <=3/<=4 CIDR strings from a 54-entry universe (IPv4 prefixes on one /28 and its neighbours with lengths 0,1,27-32 incl. host bits set; IPv6 prefixes straddling the 64-bit word boundary with lengths 0,1,63,64,65,127,128; duplicates, nested, adjacent; ::1/128; three IPv4 CIDRs in IPv4-mapped spelling; malformed strings) is compiled by the real ipset.New and queried for every one of 88 probe addresses (whole /28, range boundaries +-1, ::ffff:a.b.c.d forms, v6 word-boundary addresses, invalid slices) through ContainsIP and Contains; the real accesslist handler, the real views handler and the real default middleware chain (defaults.RegisterUpTo(resolver) + Registry.Build + production autoWire, stub in the resolver position) are driven for every list x source x transport x entry path (decoded and wire-born) and judged on replies written and downstream invocations.",
     "level_note": "Reference = hand-tabulated (family, base, bits) bit-prefix comparison, cross-checked once against netip.Prefix.Contains; validity of each universe string is stated by hand, never derived from the parser under test. Transports are in-process middleware.Transport values carrying the address/proto shapes the server hands the chain (UDP/TCP/DoT jobs, DoH mock writer, DoQ writer); no sockets are used. 'No cache lookup / resolution / upstream traffic' is observed as: a denied query asked right after the same question was cached for an admitted client produces no reply, and the handler standing at the resolver position (behind the real cache) is never invoked.",
     "rule": "ipset: all ordered lists over the universe up to the length bound x all probes; non-trivial = list with >=2 parsable entries whose probes are split (some members, some not). acl/views/pipeline: all lists (views: all ordered tuples of network lists) x all sources x transports {udp,tcp,dot,doh,doq,internal sink} x entry {decoded, wire-born, wire-born inline/replay}; non-trivial = configuration that both admits and refuses some source (views: >=2 different views win for different sources; pipeline: each (list, source) pair).",
     "assumptions": [
-        "an entry counts as unparsable only if no CIDR grammar accepts it (empty, no mask, mask > width, non-numeric); IPv4-mapped IPv6 *prefixes* (::ffff:a.b.c.d/n) are outside the universe because the property text does not say how they relate to IPv4 sources",
+        "an entry counts as unparsable only if no CIDR grammar accepts it (empty, no mask, mask > width, non-numeric); an IPv4 CIDR spelled in IPv4-mapped form (::ffff:a.b.c.d/n, n >= 96) names a.b.c.d/(n-96): the address of a mapped source literally lies in it, and that is the reading net.ParseCIDR + IPNet.Contains give (cross-checked against them); mapped prefixes shorter than 96 bits are outside the universe",
         "an empty access list (sdns default: open) is not enumerated; a list holding only unparsable entries must admit nobody",
         "views: every declared view carries an answer for the queried name, so 'first matching view' is observable; the fall-through of a matching view without an answer is not judged",
         "structure check (client-policy handlers absent from the internal sub-pipelines; accesslist ahead of every answering handler) is judged on the chain built from middleware/defaults with the resolver replaced by a stub; resolver and forwarder themselves are not started",
     ],
-    "bounds": {"quick": "ipset lists <=3 of 50 strings x 88 probes (127,551 lists); acl lists <=2 of 11 x 29 sources x 7 sinks x 4 entries x 2 query shapes; views tuples <=3 of 7 network lists x 26 sources x 6 sinks x 2 entries; pipeline 6 lists x 21 sources x 4 transports x 3 entries + structure + 10 internal sub-queries",
-               "thorough": "ipset lists <=4 (6,377,551 lists) plus every ordered list of exactly 5 over a 20-entry nesting/adjacency sub-universe (3,200,000 lists); acl lists <=3; views tuples <=4; pipeline as quick"},
+    "bounds": {"quick": "ipset lists <=3 of 54 strings x 88 probes (160,435 lists); acl lists <=2 of 11 x 29 sources x 7 sinks x 4 entries x 2 query shapes; views tuples <=3 of 7 network lists x 26 sources x 6 sinks x 2 entries; pipeline 6 lists x 21 sources x 4 transports x 3 entries + structure + 10 internal sub-queries",
+               "thorough": "ipset lists <=4 (8,663,491 lists) plus every ordered list of exactly 5 over a 20-entry nesting/adjacency sub-universe (3,200,000 lists); acl lists <=3; views tuples <=4; pipeline as quick"},
     "units": {
         "ipset": {"pkg": "internal/ipset", "run": "TestVerifC17Ipset",
                   "harness": {"internal/ipset": ["zz_verif_c17_*_test.go"]}},
